@@ -57,6 +57,16 @@ def stableB (E : Env S) (s : St S) : Bool :=
     | none => false
     | some el' => decide (el'.cost = el.cost)
 
+/- a program all of whose sub-programs (itself included) the filter accepts: what C03 / C12 call "all of whose
+    sub-programs are accepted" -/
+mutual
+  def clean (f : Prog → Bool) : Prog → Bool
+    | .node F kids => f (.node F kids) && cleanList f kids
+  def cleanList (f : Prog → Bool) : List Prog → Bool
+    | [] => true
+    | k :: ks => clean f k && cleanList f ks
+end
+
 /-- a cost list without placeholder whose finite parts are non-decreasing (Boolean): the hypothesis of the
     order theorem C03_Beap_order_partial, evaluated on the final `_cost_lists[start]` of every case -/
 def sortedB : List Cost → Bool
